@@ -4,6 +4,7 @@ import FxpVerif.Model.Convert
 import FxpVerif.Model.Compare
 import FxpVerif.Model.Dtype
 import FxpVerif.Model.Strings
+import FxpVerif.Model.Bits
 /-! Line-protocol helpers for the correspondence driver (core Lean only). -/
 namespace Fxp.Proto
 
